@@ -95,7 +95,7 @@ fn main() {
             let mut r = rng::Rng::new(seed ^ 0xC02);
             for i in 0..count {
                 let mut cr = r.fork();
-                let c = ledger::gen_window_case(&mut cr, if i < 402 { Some(i) } else { None });
+                let c = if i >= 402 && i % 7 == 3 { ledger::gen_window_boundary_case(&mut cr) } else { ledger::gen_window_case(&mut cr, if i < 402 { Some(i) } else { None }) };
                 let mut s = String::new();
                 ledger::run_case(&format!("W{}-{}", seed, i), &c, &mut s);
                 w.write_all(s.as_bytes()).unwrap();
